@@ -38,7 +38,45 @@ func sortTokens(s Sort, out map[string]bool) {
 
 const vcSizeCap = 4 << 20
 
+// relevantHyps drops axiom instances about application terms that do not occur in the rest of the VC.
+func relevantHyps(o *Obligation) []*Term {
+	var base []*Term
+	type tagged struct {
+		h    *Term
+		subj string
+	}
+	var pend []tagged
+	var text strings.Builder
+	text.WriteString(o.Goal.String())
+	for _, h := range o.Hyps {
+		if subj, ok := aboutTerm[h]; ok {
+			pend = append(pend, tagged{h, subj.String()})
+			continue
+		}
+		base = append(base, h)
+		text.WriteString("\n")
+		text.WriteString(h.String())
+	}
+	all := text.String()
+	for changed := true; changed && len(pend) > 0; {
+		changed = false
+		var rest []tagged
+		for _, p := range pend {
+			if strings.Contains(all, p.subj) {
+				base = append(base, p.h)
+				all += "\n" + p.h.String()
+				changed = true
+			} else {
+				rest = append(rest, p)
+			}
+		}
+		pend = rest
+	}
+	return base
+}
+
 func (e *Engine) renderVC(o *Obligation) (string, error) {
+	o.Hyps = relevantHyps(o)
 	syms := map[string]symInfo{}
 	for _, h := range o.Hyps {
 		h.collectSyms(nil, syms)
@@ -99,9 +137,15 @@ func (e *Engine) renderVC(o *Obligation) (string, error) {
 		}
 		fmt.Fprintf(&sb, "(declare-fun %s (%s) %s)\n", smtName(si.Name), strings.Join(as, " "), si.Res)
 	}
+	seenHyp := map[string]bool{}
 	for _, h := range o.Hyps {
+		hs := h.String()
+		if seenHyp[hs] {
+			continue
+		}
+		seenHyp[hs] = true
 		sb.WriteString("(assert ")
-		h.write(&sb)
+		sb.WriteString(hs)
 		sb.WriteString(")\n")
 	}
 	if o.ExpectSat {
@@ -176,8 +220,8 @@ func (e *Engine) discharge(o *Obligation, dir string, idx int, timeoutS int, tho
 	defer cancel()
 	results := make(chan solveResult, len(solvers))
 	var wg sync.WaitGroup
-	if o.ExpectSat && timeoutS > 4 {
-		timeoutS = 4 // vacuity guards: anything but `unsat` passes, so do not wait long for a model
+	if o.ExpectSat && timeoutS > 3 {
+		timeoutS = 3 // vacuity guards: anything but `unsat` passes, so do not wait long for a model
 	}
 	start := func(s solverSpec, delay time.Duration) {
 		wg.Add(1)
@@ -198,7 +242,7 @@ func (e *Engine) discharge(o *Obligation, dir string, idx int, timeoutS int, tho
 	for i, s := range solvers {
 		d := time.Duration(0)
 		if i > 0 && !thorough {
-			d = 1500 * time.Millisecond
+			d = 600 * time.Millisecond
 		}
 		start(s, d)
 	}
